@@ -64,6 +64,35 @@ The subset
                  starting with `last`, as a function of the declared `params`, value `expr`.  `Class.method@Type`: the
                  implementation registered with `@method.register` for a first parameter annotated `Type`.
                  `xs[::-1]`, `np.concatenate((a, [c], b))`, `a.size`, `[x, ..] * n`, `np.linspace(start, stop, num)`.
+  PyLite 5     : (C09) nested `def f(u, ..): ..` (no decorators / defaults / recursion; parameters are floats unless annotated)
+                 becomes a local function value `let f : Rat → .. := fun u .. => ..`; Python closures read the *current* value
+                 of a captured variable, so a captured name that is assigned again after the `def` is untranslatable.
+                 `factorial(n)` / `math.factorial(n)` of an int (`Rpylib.Py.factorial`, unbounded), `scipy.special.factorial` of
+                 an int (as a float).  `float ** int-expression` (`^` with `Int.toNat`), `np.power(x, n)`.
+                 `np.arange(stop)` / `np.arange(k, stop)` (k a literal >= 0) has the type `Rpylib.Py.I64Array`: numpy's
+                 FIXED-WIDTH INTEGERS ARE NOT MODELLED (int64 arithmetic wraps, Lean's `Int` does not), so such an array is only
+                 accepted where the result is a float array and no integer arithmetic happens: as the exponents of
+                 `np.power(<float>, ks)` / `<float> ** ks` and as the argument of `scipy.special.factorial(ks)`; everything else
+                 (`ks * ks`, `np.cumprod(ks)`, `np.prod`, `dtype=int` constructs, iteration ..) is `Untranslatable`.
+                 `fn_params={"**": "rpow"}`: `x ** y` with a float exponent is the two-argument function parameter `rpow x y`.
+                 `const_exprs={"x==np.inf": ("is_pos_inf", "pred:x")}`: the test is `is_pos_inf x` for a function parameter
+                 `is_pos_inf : Rat → Bool` (a test on a local / on the parameter of a nested function, which no single Bool
+                 parameter of the translated definition can stand for).
+  PyLite 6     : (C19) `f(*t)` of a declared opaque callable with `t` of a tuple type (`self.model.mass(*interval_I(a))`): the
+                 components in place.  `opts["obj_lists"] = {"self.m.models": "n_models"}`: a list of collaborator objects is the
+                 list of its positions `range(0, n_models)` (`n_models` a parameter); a loop / comprehension variable bound to
+                 one of its elements (directly, through `zip`, `enumerate`) may only be the receiver of a method declared as
+                 `opaque_fns["self.m.models[].mass"] = (name, [Int, ..], ret)` (first argument: the position).  A local bound
+                 to a declared callable may be called with the keyword arguments listed in `opts["opaque_kwargs"]`; a tuple of
+                 numbers passed where a vector is declared is the list of its components.  `np.diag(v)` of a 1-d float array
+                 (list of rows), `m[i, j] = v` on a 2-d float array this function owns, `np.sum` of a 2-d array (all entries).
+  nd2 (C07)    : (`opts["nd2"]`, methods `nd2_*`) a 2-d numpy array is the list of its rows (`List (List Rat)`), a 3-d one a list of
+                 those: `m.T`, `m.size`, `m.shape[0]`, `m[a:b, c:d]` / `m[a:b, j]` / `m[i, j]`, `np.mean / np.var / np.std(m,
+                 axis=0, ddof=k)` (`np.std` = the declared `np.sqrt` of the variance) and the same on 1-d arrays, `np.cov(a, b,
+                 bias=.., ddof=..)`, `np.dot`, `@`, `np.amin / np.amax`, `np.absolute`, `m - v` / `m * c` (broadcasting along the
+                 last axis), `np.empty_like(m)`, `m[:, k] = v` on an array built by the function.  `try: B except E: H` with
+                 `opts["try_raises"] = {"E": name}`: `if name then H else B` for the Bool parameter `name` = "B raises E" (only
+                 when H re-assigns everything B assigns that is read afterwards); `logging.f(..)` statements are skipped.
 Anything else raises `Untranslatable` with the source position: the source tie of that function is then *unavailable* (the
 behavioural correspondence remains), never silently approximated.
 
@@ -87,6 +116,8 @@ class Untranslatable(Exception):
 
 
 INT, RAT, BOOL, NUM = "Int", "Rat", "Bool", "num"      # NUM: a numeric literal, elaborated by Lean from its context
+I64 = "Rpylib.Py.I64Array"    # (C09) the result of np.arange: NOT a `List ..` type for the translator, so that no generic list /
+#   arithmetic rule applies to it (numpy's fixed-width integers are not modelled); only float-producing consumers accept it
 
 LEAN_KEYWORDS = {"at", "from", "have", "show", "fun", "end", "open", "in", "let", "do", "then", "else", "if", "match",
                  "with", "by", "where", "local", "instance", "def", "theorem", "max", "min", "abs", "prefix", "infix",
@@ -188,12 +219,17 @@ class Fn:
         #   object is read as the tuple of these keyword arguments; `x = cls.__new__(cls)` is skipped
         self.opts = opts or {}                    # PyLite 3 options (while loops, deques, numpy vectors; see `_Tr.while_loop`):
         #   "loop_fuel": Lean Nat expression (in the parameters) = fuel of every `while` loop (fuel exhausted -> `err`);
-        #   "local_types": {local name: Lean type} for locals initialised with `deque()` / `[]`;
+        #   "local_types": {local name: Lean type} for locals initialised with `deque()` / `[]`; "empty_type": the type of
+        #                every other local initialised that way;
         #   "np_arrays": [names] of numpy vectors: `v * s`, `s * v`, `v / s` with a scalar `s` are elementwise (a Python list
         #                would be repeated by `*`: the spec asserts the name is bound to a numpy array);
         #   "counters": ["self.sampling_cost", ..] attributes that are only incremented (`self.c += e`), never read by the
         #                function: the store is dropped (it cannot influence the value returned);
-        #   "sorted_state": True -> the state tuple of every loop is ordered by variable name (not by first assignment)
+        #   "sorted_state": True -> the state tuple of every loop is ordered by variable name (not by first assignment in the
+        #                loop body); "definition" -> by the order in which the variables are first bound in the function
+        #                (unchanged by renaming and by reordering statements inside the loop)
+        #   "records": {"Cls": [(kw, type), ..]} -> the constructor call `Cls(kw=v, ..)` (keyword arguments only) is the tuple of
+        #                the values of the listed keyword arguments (a collaborator object read as a record of these fields)
         # parameter types: "Int" | "Rat" | "Bool", "obj" (an object only used through the opaque_* / const_* tables: no binder),
         # "fn:<Lean function type>" (a callable parameter, e.g. "fn:Rat → Rat → Rat")
 
@@ -223,6 +259,8 @@ class _Tr(ast.NodeVisitor):
         self.ix_stack: list[str] = []             # PyLite 4: index variables of the enclosing loops / comprehensions
         self.ix_used: set[str] = set()            #   those a variate-stream call (`@` argument) refers to
         self.sites: dict = {}                     #   (sampler, id(ast node)) -> number of the call site among that sampler's
+        self.obj_elem: dict[str, str] = {}        # PyLite 6 (C19): loop / comprehension variable -> the declared list of objects
+        #                                             (`opts["obj_lists"]`) it is an element of; its Lean value is the position
 
     # ---- helpers -------------------------------------------------------------------------------------------------
     def bad(self, node, why):
@@ -262,6 +300,12 @@ class _Tr(ast.NodeVisitor):
             return s
         if t == NUM and want:
             return f"({s} : {want})"
+        if want and is_list(want) and t and not is_list(t) and "×" in t:
+            # PyLite 6 (C19): a tuple of numbers (`x = a[i], a[j]`) where a vector is expected: the list of its components
+            comps = [_strip_parens(c) for c in split_top(_strip_parens(t), "×")]
+            if all(c in (INT, RAT) for c in comps) and elem_of(want) in (INT, RAT) and not (elem_of(want) == INT and RAT in comps):
+                return "[" + ", ".join(self.coerce(self.proj(s, i, len(comps)), c, elem_of(want)) for i, c in enumerate(comps)) + "]"
+            self.bad(e, f"a value of type {t} where a {want} is expected")
         return self.coerce(s, t, want)
 
     # ---- iterables: return (lean list term, element type) ----------------------------------------------------------
@@ -283,6 +327,24 @@ class _Tr(ast.NodeVisitor):
             if fd == "enumerate" and len(e.args) == 1 and not e.keywords:
                 s_, t_ = self.iterable(e.args[0])
                 return f"(Rpylib.Py.enumerate {s_})", f"Int × {atom(t_) if '×' in t_ else t_}"
+            if fd == "reversed" and len(e.args) == 1 and not e.keywords:            # (C14)
+                s_, t_ = self.iterable(e.args[0])
+                return f"(List.reverse {s_})", t_
+            if fd == "map" and len(e.args) == 2 and not e.keywords and isinstance(e.args[0], ast.Name) \
+                    and e.args[0].id not in self.env:
+                # (C14) `map(f, xs)` with `f` a function of the same unit / a declared callable: `List.map` of the call `f(item)`
+                s_, t_ = self.iterable(e.args[1])
+                tmp = self.fresh("it")
+                saved = dict(self.env)
+                self.env[tmp] = t_
+                item = ast.copy_location(ast.Name(id=tmp, ctx=ast.Load()), e)
+                try:
+                    body, bt = self.expr(ast.copy_location(ast.Call(func=e.args[0], args=[item], keywords=[]), e))
+                finally:
+                    self.env = saved
+                if bt == NUM:
+                    body, bt = f"({body} : Int)", INT
+                return f"(List.map (fun ({tmp} : {t_}) => {body}) {s_})", bt
             if fd in ("product", "itertools.product") and len(e.args) == 1 and len(e.keywords) == 1 \
                     and e.keywords[0].arg == "repeat":
                 s_, t_ = self.iterable(e.args[0])
@@ -304,10 +366,51 @@ class _Tr(ast.NodeVisitor):
             if not tys <= {INT, RAT, NUM}:
                 self.bad(e, "literal list of non-numbers")
             return "[" + ", ".join(self.coerce(s_, t_, et) if t_ != NUM else f"({s_} : {et})" for s_, t_ in parts) + "]", et
+        ol = self.obj_list_of(e)
+        if ol is not None:
+            # PyLite 6 (C19): a declared list of collaborator objects is the list of its positions 0 .. n-1 (`n` a parameter);
+            # an element is only usable as the receiver of a declared method call (see `mark_obj_targets`, `pylite6_call`)
+            self.add_param(self.fn.opts["obj_lists"][ol], INT)
+            return f"(Rpylib.Py.range 0 {self.fn.opts['obj_lists'][ol]})", INT
         s_, t_ = self.expr(e)
         if is_list(t_):
             return s_, elem_of(t_)
         self.bad(e, f"iteration over a value of type {t_}")
+
+    def obj_list_of(self, e):
+        """the key of `opts["obj_lists"]` the attribute chain `e` denotes (through an object alias), else None"""
+        ol = self.fn.opts.get("obj_lists") if self.fn.opts else None
+        if not ol or not isinstance(e, ast.Attribute):
+            return None
+        dv = _dotted(e)
+        if dv and dv.split(".")[0] in self.alias:
+            dv = self.alias[dv.split(".")[0]] + dv[len(dv.split(".")[0]):]
+        return dv if dv in ol else None
+
+    def mark_obj_targets(self, tgt, it):
+        """PyLite 6 (C19): remember which names of the loop / comprehension target `tgt` are bound to elements of a declared list
+        of objects by the iterable `it` (the list itself, `zip(.., objs, ..)`, `enumerate(objs)`); any other way of reaching
+        the elements of such a list is untranslatable (an element is a position in Lean: it must not be used as a number)"""
+        if not (self.fn.opts and self.fn.opts.get("obj_lists")):
+            return
+        if isinstance(tgt, ast.Name) and self.obj_list_of(it) is not None:
+            self.obj_elem[tgt.id] = self.obj_list_of(it)
+            return
+        if isinstance(tgt, (ast.Tuple, ast.List)) and isinstance(it, ast.Call) and not it.keywords:
+            fd = _dotted(it.func)
+            if fd == "zip" and len(it.args) == len(tgt.elts):
+                for x, a_ in zip(tgt.elts, it.args):
+                    self.mark_obj_targets(x, a_)
+                return
+            if fd == "enumerate" and len(it.args) == 1 and len(tgt.elts) == 2:
+                self.mark_obj_targets(tgt.elts[1], it.args[0])
+                return
+        for n in ast.walk(it):
+            if self.obj_list_of(n) is not None:
+                self.bad(it, "the elements of a list of objects are bound in a form the translator cannot follow")
+        for n in ast.walk(tgt):
+            if isinstance(n, ast.Name):
+                self.obj_elem.pop(n.id, None)        # the name is rebound to something that is not an object
 
     def bind_target(self, tgt, ty, tmp) -> list[str]:
         """let-lines binding the names of a loop / comprehension target to the components of `tmp : ty` (updates env)"""
@@ -335,6 +438,8 @@ class _Tr(ast.NodeVisitor):
         saved = dict(self.env)
         tmp = self.fresh("it")
         lines = self.bind_target(g.target, et, tmp)
+        saved_obj = dict(self.obj_elem)
+        self.mark_obj_targets(g.target, g.iter)
         ix = self.fresh("ix")
         self.ix_stack.append(ix)
         try:
@@ -344,6 +449,7 @@ class _Tr(ast.NodeVisitor):
             body, bt = self.expr(e.elt)
         finally:
             self.ix_stack.pop()
+            self.obj_elem = saved_obj
         if bt == NUM:
             body, bt = f"({body} : Int)", INT
         self.env = saved
@@ -377,8 +483,14 @@ class _Tr(ast.NodeVisitor):
             key = _norm_expr(e)
             if key in self.fn.const_exprs:
                 nm, ty = self.fn.const_exprs[key]
+                if ty.startswith("pred:"):                # (C09) a test on a local: the function parameter `nm : Rat → Bool`
+                    return self.pred_param(e, nm, ty), BOOL
                 self.add_param(nm, ty)
                 return nm, ty
+        if self.fn.opts.get("nd2"):                        # (C07) 2-d numpy arrays: see `nd2_expr`
+            rn = self.nd2_expr(e)
+            if rn is not None:
+                return rn
         if self.fn.opts:
             r3 = self.pylite3_expr(e)
             if r3 is not None:
@@ -398,6 +510,8 @@ class _Tr(ast.NodeVisitor):
         if isinstance(e, ast.Name):
             if e.id in self.iters and not getattr(self, "iter_ok", False):
                 self.bad(e, f"the one-shot iterator `{e.id}` is used other than by next() / one for statement")
+            if e.id in self.obj_elem:                  # PyLite 6 (C19): an element of a list of objects is not a value
+                self.bad(e, f"the object `{e.id}` (an element of {self.obj_elem[e.id]}) is used other than as the receiver of a declared method")
             if e.id in self.env:
                 return lname(e.id), self.env[e.id]
             if e.id in self.fn.consts:
@@ -462,9 +576,20 @@ class _Tr(ast.NodeVisitor):
                     if len(elts) == 1:
                         return f"(List.replicate (Int.toNat {n}) {elts[0]})", list_of(et)
                     return f"(List.flatten (List.replicate (Int.toNat {n}) [{', '.join(elts)}]))", list_of(et)
+            if isinstance(e.op, ast.Add) and self.fn.opts.get("lists") \
+                    and isinstance(e.left, ast.Tuple) != isinstance(e.right, ast.Tuple):
+                # (C14) `xs + (v, ..)` / `(v, ..) + xs`: a tuple used as a vector concatenated with a tuple literal
+                lit, other = (e.left, e.right) if isinstance(e.left, ast.Tuple) else (e.right, e.left)
+                os_, ot = self.expr(other)
+                if is_list(ot):
+                    ls_ = self.expr_as(lit, ot)
+                    return (f"({ls_} ++ {os_})" if lit is e.left else f"({os_} ++ {ls_})"), ot
             a, ta = self.expr(e.left)
             b, tb = self.expr(e.right)
             op = e.op
+            rn = self.nd2_binop(e, a, ta, b, tb) if self.fn.opts.get("nd2") else None
+            if rn is not None:
+                return rn
             r3 = self.pylite3_binop(e, a, ta, b, tb)
             if r3 is not None:
                 return r3
@@ -477,6 +602,14 @@ class _Tr(ast.NodeVisitor):
                 if tb in (INT,) and ta in (INT, NUM):
                     base = a if ta == INT else f"({a} : Int)"
                     return f"({base} ^ (Int.toNat {b}))", INT
+                if tb == INT and ta == RAT:                # (C09) float ** int expression
+                    return f"({a} ^ (Int.toNat {b}))", RAT
+                if tb == I64 and ta == RAT:                # (C09) float ** np.arange(..): a float array
+                    return f"(List.map (fun (k_ : Int) => {a} ^ (Int.toNat k_)) {b})", "List Rat"
+                if "**" in self.fn.fn_params and tb == RAT and ta in (RAT, INT, NUM):
+                    nm = self.fn.fn_params["**"]           # (C09) x ** y, y real: the function parameter `rpow x y`
+                    self.add_param(nm, "Rat → Rat → Rat")
+                    return f"({nm} {self.coerce(a, ta, RAT) if ta != NUM else '(' + a + ' : Rat)'} {b})", RAT
                 if isinstance(e.left, ast.Constant) and type(e.left.value) is int and f"{e.left.value}**" in self.fn.fn_params \
                         and tb in (RAT, INT, NUM):
                     nm = self.fn.fn_params[f"{e.left.value}**"]        # `2 ** x`, x real: the function parameter `pow2 x`
@@ -538,6 +671,8 @@ class _Tr(ast.NodeVisitor):
             if isinstance(e.value, ast.Attribute) and e.value.attr == "shape" and isinstance(e.slice, ast.Constant) \
                     and e.slice.value == 0 and isinstance(e.value.value, ast.Name) and is_list(self.env.get(e.value.value.id, "")):
                 return f"((List.length {lname(e.value.value.id)} : Nat) : Int)", INT      # PyLite 4: ndarray.shape[0]
+            if isinstance(e.slice, ast.Tuple):
+                return self.path_index(e)                # (C17) x[..., i], x[..., a:b], x[i, ...], x[i, j]
             vs, vt = self.expr(e.value)
             if is_list(vt):
                 if isinstance(e.slice, ast.Slice):
@@ -574,10 +709,27 @@ class _Tr(ast.NodeVisitor):
             nm, ty = self.fn.const_calls[key]
             self.add_param(nm, ty)
             return nm, ty
+        if key in self.fn.opts.get("call_views", {}):
+            # (C14) `opts["call_views"] = {normalised call text: (parameter, [local names], result type)}`: this exact call is the
+            # opaque function `parameter` of the current values of the named locals (everything else it reads is a fixed collaborator)
+            nm, names_, rty = self.fn.opts["call_views"][key]
+            if any(n_ not in self.env for n_ in names_):
+                self.bad(e, f"call view {key}: the locals {names_} are not all bound here")
+            self.add_param(nm, " → ".join([atom(self.env[n_]) for n_ in names_] + [rty]))
+            return "(" + " ".join([nm] + [lname(n_) for n_ in names_]) + ")", rty
         f = e.func
         fdot = _dotted(f)
         if fdot and fdot.split(".")[0] in self.alias:
             fdot = self.alias[fdot.split(".")[0]] + fdot[len(fdot.split(".")[0]):]
+        if fdot and fdot in self.fn.opts.get("records", {}):
+            # (C10) a constructor call of a collaborator class, every argument by keyword, read as the record of the keyword
+            # arguments the spec lists (the others are objects): the tuple of their values in the listed order
+            fields = self.fn.opts["records"][fdot]
+            given = {k_.arg: k_.value for k_ in e.keywords}
+            if e.args or None in given or any(k_ not in given for k_, _ in fields):
+                self.bad(e, f"record constructor {fdot}: expected the keyword arguments {[k_ for k_, _ in fields]}")
+            parts = [self.expr_as(given[k_], t_) for k_, t_ in fields]
+            return ("(" + ", ".join(parts) + ")" if len(parts) > 1 else parts[0]), " × ".join(atom(t_) for _, t_ in fields)
         lst = self.list_call(e, fdot)
         if lst is not None:
             return lst
@@ -587,7 +739,14 @@ class _Tr(ast.NodeVisitor):
         ndc = self.nd_call(e, fdot)
         if ndc is not None:
             return ndc
+        r6 = self.pylite6_call(e, fdot)
+        if r6 is not None:
+            return r6
         kwnames = self.fn.opts.get("opaque_kwargs", {}).get(fdot) if fdot in self.fn.opaque_fns else None
+        if kwnames is None and e.keywords and isinstance(f, ast.Name) and self.env.get(f.id, "").startswith("fn:") \
+                and self.fn.opts.get("opaque_kwargs"):
+            # PyLite 6 (C19): a local bound to a declared callable (`g = self.obj.method`) called with keyword arguments
+            kwnames = self.fn.opts["opaque_kwargs"].get(self.stream_of_local(f.id))
         if kwnames and e.keywords:
             # keyword arguments of a declared opaque callable whose parameter names the spec gives: put them in position
             given = dict(zip(kwnames, e.args))
@@ -618,9 +777,23 @@ class _Tr(ast.NodeVisitor):
             nm, atys, rty = self.fn.opaque_fns[fdot]
             if len(e.args) != len(atys):
                 self.bad(e, f"call of {fdot} with {len(e.args)} arguments")
-            self.add_param(nm, " → ".join(list(atys) + [rty]))
-            parts = [self.expr_as(a, want) for a, want in zip(e.args, atys)]
+            for a, want in zip(e.args, atys):
+                # (C17) argument type "_": one of this function's own object parameters (type "obj") handed on unchanged — the
+                # Lean function parameter is closed over it (it is the same object in every call made by one evaluation)
+                if want == "_" and not (isinstance(a, ast.Name) and self.env.get(a.id) == "obj"
+                                        and any(p.arg == a.id for p in self.node.args.args)):
+                    self.bad(e, f"call of {fdot}: the argument declared `_` is not an object parameter handed on unchanged")
+            self.add_param(nm, " → ".join([t_ for t_ in atys if t_ != "_"] + [rty]))
+            parts = [self.expr_as(a, want) for a, want in zip(e.args, atys) if want != "_"]
             return "(" + " ".join([nm] + parts) + ")", rty
+        if fdot in ("scipy.special.factorial", "special.factorial", "sp.special.factorial", "spp.factorial") and len(e.args) == 1 \
+                and not e.keywords:
+            s, t = self.expr(e.args[0])                                # (C09) a float (exact=False); of an np.arange: a float array
+            if t in (INT, NUM):
+                return f"((Rpylib.Py.factorial {s if t == INT else '(' + s + ' : Int)'} : Int) : Rat)", RAT
+            if t == I64:
+                return f"(List.map (fun (k_ : Int) => ((Rpylib.Py.factorial k_ : Int) : Rat)) {s})", "List Rat"
+            self.bad(e, f"scipy.special.factorial of a {t}")
         name = None
         if isinstance(f, ast.Name):
             name = f.id
@@ -637,6 +810,25 @@ class _Tr(ast.NodeVisitor):
             args = []
         else:
             args = [self.expr(a) for a in e.args]
+        if name in ("factorial", "math.factorial") and len(args) == 1 and not e.keywords and args[0][1] in (INT, NUM):
+            s, t = args[0]                                # (C09) Python ints are unbounded: exact
+            return f"(Rpylib.Py.factorial {s if t == INT else '(' + s + ' : Int)'})", INT
+        if name in ("np.arange", "numpy.arange") and 1 <= len(args) <= 2 and not e.keywords:
+            # (C09) an int64 array: its own type, accepted only by consumers that produce floats (fixed-width integer
+            # arithmetic is not modelled)
+            if any(t not in (INT, NUM) for _, t in args):
+                self.bad(e, "np.arange of a float")
+            if len(args) == 2 and not (isinstance(e.args[0], ast.Constant) and type(e.args[0].value) is int and e.args[0].value >= 0):
+                self.bad(e, "np.arange(start, stop) with a start that is not a literal >= 0")
+            lo = args[0][0] if len(args) == 2 else "0"
+            hi = args[-1][0] if args[-1][1] == INT else f"({args[-1][0]} : Int)"
+            return f"(Rpylib.Py.range {lo} {hi})", I64
+        if name in ("np.power", "numpy.power") and len(args) == 2 and not e.keywords and args[0][1] == RAT:
+            (a_, _), (b_, tb_) = args
+            if tb_ == I64:
+                return f"(List.map (fun (k_ : Int) => {a_} ^ (Int.toNat k_)) {b_})", "List Rat"
+            if tb_ in (INT, NUM):
+                return f"({a_} ^ (Int.toNat {b_ if tb_ == INT else '(' + b_ + ' : Int)'}))", RAT
         if name in ("isqrt", "math.isqrt") and len(args) == 1:
             s, t = args[0]
             if t == RAT:
@@ -716,8 +908,9 @@ class _Tr(ast.NodeVisitor):
                     # when that parameter is passed on unchanged; a different (Rat-valued, hence finite) argument makes it false.
                     over = {}
                     for key, (nm, ty) in self.fn.const_exprs.items():
-                        for (pn, _), arg in zip(sig["py_params"], e.args):
-                            if pn in key and not (isinstance(arg, ast.Name) and arg.id == pn) and ty == BOOL:
+                        for pn, arg in [(pn_, given[pn_]) for pn_, _ in sig["py_params"] if pn_ in given]:   # keywords too
+                            if __import__("re").search(r"\b" + pn + r"\b", key) and not (isinstance(arg, ast.Name) and arg.id == pn) \
+                                    and ty == BOOL:             # the parameter as a whole word of the test's text
                                 over[nm] = "false"
                     tag = "⟪EXTRA" + "".join(f"|{k}={v}" for k, v in sorted(over.items())) + "⟫"
                     return "(" + " ".join([callee.lean_name + "_fuel", "fuel"] + parts + [tag]) + ")", sig["ret"]
@@ -737,6 +930,9 @@ class _Tr(ast.NodeVisitor):
     def list_call(self, e, fdot):
         """built-ins on lists; None when `e` is not one of them"""
         a, kw = e.args, {k.arg: k.value for k in e.keywords}
+        r17 = self.path_call(e, fdot, a, kw)              # (C17) np.argwhere, np.min / np.max, element-wise np.maximum, any / all
+        if r17 is not None:
+            return r17
         if fdot in ("product", "itertools.product", "zip") and len(a) == 1 and isinstance(a[0], ast.Starred) and not kw:
             # as a value: the list of all results.  Python gives a one-shot iterator: a local bound to it may only be
             # advanced with `next(x)` and consumed by ONE `for` statement (see `block`, `for_loop`); unpacking is fine
@@ -755,7 +951,21 @@ class _Tr(ast.NodeVisitor):
             s_, et = self.iterable(a[0])
             if et == BOOL:
                 self.bad(e, "sum of booleans")
+            if is_list(et):
+                # PyLite 6 (C19): np.sum of a 2-d array (a list of rows) is the sum of all its entries; Python's own `sum` of a
+                # 2-d array adds the rows (a vector): not translated
+                if fdot in ("np.sum", "numpy.sum") and elem_of(et) in (INT, RAT):
+                    return f"(List.sum (List.map List.sum {s_}))", elem_of(et)
+                self.bad(e, f"{fdot} of a list of {et}")
             return f"(List.sum {s_})", et
+        if fdot in ("np.diag", "numpy.diag") and len(a) == 1 and not kw:
+            # PyLite 6 (C19): np.diag(v) of a 1-d float array: the square matrix (list of rows) with v on the diagonal, zeros elsewhere
+            s_, t_ = self.expr(a[0])
+            if t_ != "List Rat":
+                self.bad(e, f"np.diag of a {t_} (only a 1-d float array is translated)")
+            tmp = self.fresh("d")
+            return (f"(let {tmp} : List Rat := {s_}; List.map (fun (p_ : Int × Rat) => Rpylib.Py.setAt "
+                    f"(Rpylib.Py.zeros ((List.length {tmp} : Nat) : Int)) p_.1 p_.2) (Rpylib.Py.enumerate {tmp}))"), "List (List Rat)"
         if fdot in ("np.prod", "numpy.prod", "math.prod") and len(a) == 1 and not kw:
             s_, et = self.iterable(a[0])
             return (f"(Rpylib.Py.rprod {s_})", RAT) if et == RAT else (f"(Rpylib.Py.iprod {s_})", INT)
@@ -817,6 +1027,26 @@ class _Tr(ast.NodeVisitor):
             for c_ in cs[1:]:
                 out = f"({fnm} {out} {c_})"
             return out, t_
+        if fdot in ("all", "any") and len(a) == 1 and not kw and self.fn.opts.get("lists"):
+            s_, et = self.iterable(a[0])                       # (C14) all / any of a list of booleans
+            if et != BOOL:
+                self.bad(e, f"{fdot} of a list of {et}")
+            return f"(List.{fdot} {s_} (fun (b_ : Bool) => b_))", BOOL
+        if fdot == "next" and len(a) == 1 and not kw and isinstance(a[0], ast.GeneratorExp) and self.fn.opts.get("lists"):
+            # (C14) `next(<generator expression>)`: its first element (Python raises StopIteration when there is none, here the
+            # type's default value: caller's domain)
+            s_, lt = self.comprehension(a[0])
+            return f"(List.headD {s_} default)", elem_of(lt)
+        if fdot in ("max", "min") and len(a) == 1 and not kw and self.fn.opts.get("lists"):
+            # (C14) `max(xs)` / `min(xs)` of a list (tuple, deque, generator) of numbers: the 2-argument max / min folded from the
+            # first element over the rest (Python raises ValueError on an empty argument, here the value is 0: caller's domain)
+            s_, et = self.iterable(a[0])
+            if et not in (INT, RAT):
+                self.bad(e, f"{fdot} of a list of {et}")
+            fnm = {(RAT, "max"): "Rpylib.Py.rmax", (RAT, "min"): "Rpylib.Py.rmin", (INT, "max"): "Rpylib.Py.imax",
+                   (INT, "min"): "Rpylib.Py.imin"}[(et, fdot)]
+            tmp = self.fresh("l")
+            return f"(let {tmp} : {list_of(et)} := {s_}; List.foldl {fnm} (List.headD {tmp} 0) (List.tail {tmp}))", et
         r4 = self.pylite4_list_call(e, fdot, a, kw)
         if r4 is not None:
             return r4
@@ -866,6 +1096,8 @@ class _Tr(ast.NodeVisitor):
     def prop(self, e) -> str:
         if self.fn.const_exprs and _norm_expr(e) in self.fn.const_exprs:
             nm, ty = self.fn.const_exprs[_norm_expr(e)]
+            if ty.startswith("pred:"):
+                return f"({self.pred_param(e, nm, ty)} = true)"
             self.add_param(nm, ty)
             return f"({nm} = true)" if ty == BOOL else f"({nm} ≠ 0)"
         et = self.enum_test(e)
@@ -917,19 +1149,39 @@ class _Tr(ast.NodeVisitor):
                 return self.stores_tuple()
             self.bad(self.node, "control reaches the end of the function without a return")
         s, rest = stmts[0], stmts[1:]
+        rn = self.nd2_stmt(s, rest) if self.fn.opts.get("nd2") else None
+        if rn is not None:
+            return rn
         r3 = self.pylite3_stmt(s, rest)
         if r3 is not None:
             return r3
         rnd = self.nd_stmt(s, rest)
         if rnd is not None:
             return rnd
+        rn6 = self.pylite6_stmt(s, rest)
+        if rn6 is not None:
+            return rn6
         rit = self.iter_stmt(s, rest)
         if rit is not None:
             return rit
+        rls = self.lists_stmt(s, rest) if self.fn.opts.get("lists") else None
+        if rls is not None:
+            return rls
         if isinstance(s, ast.Expr) and isinstance(s.value, ast.Constant) and isinstance(s.value.value, str):
             return self.block(rest, [])
         if isinstance(s, (ast.Pass, ast.Assert)):
             return self.block(rest, [])
+        if isinstance(s, ast.FunctionDef):
+            return self.local_def(s, rest)
+        if isinstance(s, ast.Return) and getattr(self, "local_ret", None) is not None:
+            if s.value is None:
+                self.bad(s, "return without a value")
+            v, t = self.expr(s.value)
+            if t == NUM:
+                v, t = f"({v} : Int)", INT
+            self.local_ret[0].append(t)
+            want = self.local_ret[1]
+            return v if want is None else self.coerce(v, t, want)
         if isinstance(s, ast.Return) and self.fn.stores:
             if s.value is None or (isinstance(s.value, ast.Constant) and s.value.value is None) \
                     or (isinstance(s.value, ast.Name) and s.value.id == "self"):
@@ -1077,6 +1329,9 @@ class _Tr(ast.NodeVisitor):
             for n, want in zip(s.names, self.state_types):
                 vals.append(self.coerce(lname(n), self.env[n], want))
             return "(" + ", ".join(vals) + ")" if len(vals) != 1 else vals[0]
+        if isinstance(s, ast.Break) and getattr(self, "brk_stack", None) and self.brk_stack[-1][0]:
+            brk_, names_ = self.brk_stack[-1]     # (C17) leave the loop: the state now, with the flag "left" set (see `for_loop`)
+            return f"let {brk_} : Bool := true\n" + self.block([_Yield(names_)], [])
         if isinstance(s, ast.For):
             return self.for_loop(s, rest)
         if isinstance(s, ast.If):
@@ -1088,6 +1343,72 @@ class _Tr(ast.NodeVisitor):
             self.env, self.none_flag = saved, saved_flags
             return f"if {c} then\n{textwrap.indent(a, '  ')}\nelse\n{textwrap.indent(b, '  ')}"
         self.bad(s, f"statement {type(s).__name__}")
+
+    def pred_param(self, e, nm, ty) -> str:
+        """(C09) `const_exprs={"x==np.inf": ("is_pos_inf", "pred:x")}`: the test is the value of the function parameter
+        `is_pos_inf : Rat → Bool` at the local `x`"""
+        var = ty[5:]
+        if self.env.get(var) != RAT:
+            self.bad(e, f"predicate parameter {nm} on `{var}`, which is not a float local here")
+        self.add_param(nm, "Rat → Bool")
+        return f"({nm} {lname(var)})"
+
+    def local_def(self, s: ast.FunctionDef, rest) -> str:
+        """(C09) a nested `def`: a local function value.  Python's closure reads the current value of a captured variable when
+        it is *called*, the Lean `let` captures the value at the definition: they agree when no captured name (and not the
+        function's own name) is assigned after the `def`."""
+        a = s.args
+        if s.decorator_list or a.vararg or a.kwarg or a.kwonlyargs or a.posonlyargs or a.defaults or not a.args:
+            self.bad(s, "nested def with decorators / defaults / star parameters / no parameter")
+        if getattr(self, "local_ret", None) is not None:
+            self.bad(s, "nested def inside a nested def")
+        pnames = [p.arg for p in a.args]
+        for n in ast.walk(s):
+            if isinstance(n, (ast.Raise, ast.For, ast.While, ast.Global, ast.Nonlocal, ast.Lambda, ast.Yield, ast.YieldFrom)) \
+                    or (isinstance(n, ast.FunctionDef) and n is not s):
+                self.bad(n, f"{type(n).__name__} inside a nested def")
+            if isinstance(n, ast.Name) and n.id == s.name:
+                self.bad(n, "a nested def that refers to itself")
+        stored_inside = {n.id for n in ast.walk(s) if isinstance(n, ast.Name) and isinstance(n.ctx, ast.Store)}
+        captured = {n.id for n in ast.walk(s) if isinstance(n, ast.Name) and isinstance(n.ctx, ast.Load)} - set(pnames) - stored_inside
+        for r_ in rest:
+            for n in ast.walk(r_):
+                if isinstance(n, ast.Name) and isinstance(n.ctx, (ast.Store, ast.Del)) and (n.id in captured or n.id == s.name):
+                    self.bad(n, f"`{n.id}` is assigned after the nested def `{s.name}` that captures it")
+        ptys = []
+        for p in a.args:
+            ty = self.fn.params.get(f"{s.name}.{p.arg}")
+            if ty is None and isinstance(p.annotation, ast.Name):
+                ty = _ANN.get(p.annotation.id)
+            ptys.append(ty or RAT)
+        saved = (dict(self.env), dict(self.none_flag), self.state_types, self.yield_types)
+        body, want = None, None
+        for _attempt in range(2):                      # first pass: the types of the returned values; second: coerced to their join
+            self.env = dict(saved[0])
+            for n_, t_ in zip(pnames, ptys):
+                self.env[n_] = t_
+            self.local_ret = ([], want)
+            try:
+                body = self.block(list(s.body), [])
+            finally:
+                got, self.local_ret = self.local_ret[0], None
+            tys = set(got)
+            if not tys:
+                self.bad(s, "nested def without a return")
+            if len(tys) == 1:
+                want = next(iter(tys))
+            elif tys == {INT, RAT}:
+                want = RAT
+            else:
+                self.bad(s, f"nested def returning values of types {sorted(tys)}")
+        self.env, self.none_flag, self.state_types, self.yield_types = saved[0], saved[1], saved[2], saved[3]
+        fty = " → ".join([atom(t_) if "→" in t_ else t_ for t_ in ptys] + [want])
+        binders = " ".join(f"({lname(n_)} : {t_})" for n_, t_ in zip(pnames, ptys))
+        saved_env = dict(self.env)
+        self.env[s.name] = "fn:" + fty
+        tail = self.block(rest, [])
+        self.env = saved_env
+        return f"let {lname(s.name)} : {fty} := (fun {binders} =>\n{textwrap.indent(body, '    ')})\n{tail}"
 
     def stores_tuple(self) -> str:
         vals = [self.coerce(lname(_store_name(a_)), self.env[_store_name(a_)], t_) for a_, t_ in self.fn.stores.items()]
@@ -1122,6 +1443,47 @@ class _Tr(ast.NodeVisitor):
                 ok = isinstance(n.targets[0].slice, ast.Name) and n.targets[0].slice.id == i and not rebinds_i
             if not ok:
                 self.bad(n, f"the loop body changes the list `{tgt}` it iterates over in place")
+
+    # ---- (C14, `opts["lists"]`) tuples used as vectors: star calls, walrus in an `if` test, tuple results ---------------
+    def lists_stmt(self, s, rest):
+        """None when `s` is none of:
+        `if (d := e) <op> ..:`   the walrus is the first thing the test evaluates: `d = e` followed by the `if` on `d`;
+        `return f(*xs)`          `f` a declared opaque callable of k numbers, `xs` a list: `f xs[0] .. xs[k-1]` when
+                                 len(xs) = k, the function's `err` value otherwise (Python raises TypeError);
+        `return (a, ..)`         of a function whose declared result is a list: the list of the components;
+        `return e`               of a function with `stores` and `opts["value_and_stores"]`: the tuple (e, final stores)."""
+        if isinstance(s, ast.If) and isinstance(s.test, ast.Compare) and isinstance(s.test.left, ast.NamedExpr) \
+                and isinstance(s.test.left.target, ast.Name) \
+                and sum(isinstance(n, ast.NamedExpr) for n in ast.walk(s.test)) == 1:
+            w = s.test.left
+            assign = ast.copy_location(ast.Assign(targets=[ast.copy_location(ast.Name(id=w.target.id, ctx=ast.Store()), w)],
+                                                  value=w.value), s)
+            test = ast.copy_location(ast.Compare(left=ast.copy_location(ast.Name(id=w.target.id, ctx=ast.Load()), w),
+                                                 ops=s.test.ops, comparators=s.test.comparators), s.test)
+            return self.block([assign, ast.copy_location(ast.If(test=test, body=s.body, orelse=s.orelse), s)] + list(rest), [])
+        if not isinstance(s, ast.Return) or s.value is None:
+            return None
+        v = s.value
+        if isinstance(v, ast.Call) and len(v.args) == 1 and isinstance(v.args[0], ast.Starred) and not v.keywords \
+                and _dotted(v.func) in self.fn.opaque_fns and self.fn.err is not None and not self.fn.stores:
+            nm, atys, rty = self.fn.opaque_fns[_dotted(v.func)]
+            xs, xt = self.expr(v.args[0].value)
+            if atys and len(set(atys)) == 1 and atys[0] in (INT, RAT) and is_list(xt) and elem_of(xt) == atys[0] \
+                    and rty == self.fn.ret:
+                self.add_param(nm, " → ".join(list(atys) + [rty]))
+                tmp = self.fresh("l")
+                args = " ".join(f"(Rpylib.Py.idx {tmp} {i})" for i in range(len(atys)))
+                return (f"let {tmp} : {xt} := {xs}\nif (List.length {tmp} = {len(atys)}) then\n  ({nm} {args})\nelse\n"
+                        f"  {self.fn.err}")
+            return None
+        if isinstance(v, ast.Tuple) and self.fn.ret and is_list(self.fn.ret) and not self.fn.stores:
+            return self.expr_as(v, self.fn.ret)
+        if self.fn.stores and self.fn.opts.get("value_and_stores"):
+            val, t = self.expr(v)
+            want = _strip_parens(split_top(self.fn.ret, "×")[0]) if self.fn.ret else None
+            val = f"({val} : {want})" if (t == NUM and want) else self.coerce(val, t, want)
+            return f"({val}, {self.stores_tuple()})"
+        return None
 
     # ---- one-shot iterators (`x = product(*xss)`, `next(x)`), statically decided tests --------------------------------
     def iter_stmt(self, s, rest):
@@ -1158,8 +1520,15 @@ class _Tr(ast.NodeVisitor):
         if s.orelse:
             self.bad(s, "for ... else")
         self.live_iteration_guard(s)
+        brk = None
+        if any(isinstance(n, ast.Break) for n in ast.walk(s)):
+            # (C17) `break` in a loop without inner loops: the fold carries one more Boolean state variable "the loop was left";
+            # once it is set the remaining items leave the state unchanged; `break` sets it and ends the body
+            if any(isinstance(n, (ast.For, ast.While)) and n is not s for n in ast.walk(s)):
+                self.bad(s, "break in a loop that contains another loop")
+            brk = self.fresh("brk")
         for n in ast.walk(s):
-            if isinstance(n, (ast.Return, ast.Break, ast.Continue, ast.While, ast.Raise)):
+            if isinstance(n, (ast.Return, ast.Continue, ast.While, ast.Raise)) or (isinstance(n, ast.Break) and brk is None):
                 self.bad(n, f"{type(n).__name__} inside a for loop")
         assigned = []
         for n in ast.walk(s):
@@ -1177,10 +1546,15 @@ class _Tr(ast.NodeVisitor):
                         assigned.append(x.id)
         assigned += [n for n in self.pylite3_mutated(s) if n not in assigned]
         state = [n for n in assigned if n in self.env]           # outer variables the body rebinds; the others are loop-local
-        if self.fn.opts.get("sorted_state"):
+        if self.fn.opts.get("sorted_state") == "definition":
+            state = [n for n in self.env if n in state]          # order of first binding in the function (robust to renaming)
+        elif self.fn.opts.get("sorted_state"):
             state.sort()
         if not state:
             self.bad(s, "for loop that assigns no outer variable")
+        if brk:
+            self.env[brk] = BOOL
+            state = state + [brk]
         consumed = s.iter.id if isinstance(s.iter, ast.Name) and s.iter.id in self.iters else None
         self.iter_ok = consumed is not None
         try:
@@ -1202,16 +1576,23 @@ class _Tr(ast.NodeVisitor):
             lines = [f"let {lname(n)} : {t_} := {self.proj(st, i, len(state)) if len(state) > 1 else st}"
                      for i, (n, t_) in enumerate(zip(state, types))]
             lines += self.bind_target(s.target, et, tmp)
+            saved_obj = dict(self.obj_elem)
+            self.mark_obj_targets(s.target, s.iter)       # PyLite 6 (C19): loop variables bound to elements of a list of objects
             ix = self.fresh("ix")
             self.ix_stack.append(ix)
+            self.brk_stack = getattr(self, "brk_stack", []) + [(brk, state)]
             try:
                 inner = self.block(list(s.body) + [_Yield(state)], [])
             finally:
                 self.ix_stack.pop()
+                self.brk_stack = self.brk_stack[:-1]
+                self.obj_elem = saved_obj
             got = self.yield_types
             if got == types:
+                if brk:
+                    inner = f"if ({brk} = true) then\n  {st}\nelse\n{textwrap.indent(inner, '  ')}"
                 body = "\n".join(lines) + "\n" + inner
-                if ix in self.ix_used:             # PyLite 4: the body calls a variate stream: fold over (position, item)
+                if ix in self.ix_used:            # PyLite 4: the body calls a variate stream: fold over (position, item)
                     body = f"let {ix} : Int := {tmp}_p.1\nlet {tmp} : {et} := {tmp}_p.2\n" + body
                     tmp, et, it = tmp + "_p", f"Int × {atom(et)}", f"(Rpylib.Py.enumerate {it})"
                 break
@@ -1232,6 +1613,8 @@ class _Tr(ast.NodeVisitor):
         init = f"({init})" if len(state) > 1 else init
         res = self.fresh("loop")
         out = [f"let {res} : {sty} := List.foldl (fun ({st} : {sty}) ({tmp} : {et}) =>\n{textwrap.indent(body, '    ')}) {init} {it}"]
+        if brk:
+            out.insert(0, f"let {brk} : Bool := false")
         saved = dict(self.env)
         for i, (n, t_) in enumerate(zip(state, types)):
             out.append(f"let {lname(n)} : {t_} := {self.proj(res, i, len(state)) if len(state) > 1 else res}")
@@ -1382,6 +1765,12 @@ class _Tr(ast.NodeVisitor):
         if isinstance(e, ast.Attribute) and e.attr == "size" and isinstance(e.value, ast.Name) \
                 and is_list(self.env.get(e.value.id, "")):
             return f"((List.length {lname(e.value.id)} : Nat) : Int)", INT          # numpy: v.size of a vector
+        if isinstance(e, ast.Call) and _dotted(e.func) in ("np.concatenate", "numpy.concatenate") and len(e.args) == 1 \
+                and not e.keywords and isinstance(e.args[0], (ast.Tuple, ast.List)) and e.args[0].elts:
+            parts = [self.expr(x) for x in e.args[0].elts]
+            if all(is_list(t_) and elem_of(t_) in (INT, RAT) for _, t_ in parts):
+                et = RAT if any(elem_of(t_) == RAT for _, t_ in parts) else INT
+                return "(" + " ++ ".join(self.coerce(s_, t_, list_of(et)) for s_, t_ in parts) + ")", list_of(et)
         if isinstance(e, ast.Call) and _dotted(e.func) in ("np.empty", "numpy.empty", "np.empty_like", "numpy.empty_like"):
             # uninitialised numpy vectors: read as zeros (Python's content is arbitrary; code that reads an entry before
             # writing it has no defined value either way)
@@ -1404,7 +1793,7 @@ class _Tr(ast.NodeVisitor):
         """names of lists the statements under `node` mutate through `.append(v)` / `.pop()` / `.pop(i)`"""
         out = []
         for n in ast.walk(node):
-            if isinstance(n, ast.Call) and isinstance(n.func, ast.Attribute) and n.func.attr in ("append", "pop") \
+            if isinstance(n, ast.Call) and isinstance(n.func, ast.Attribute) and n.func.attr in ("append", "pop", "appendleft") \
                     and isinstance(n.func.value, ast.Name) and is_list(self.env.get(n.func.value.id, "")) \
                     and n.func.value.id not in out:
                 out.append(n.func.value.id)
@@ -1429,6 +1818,10 @@ class _Tr(ast.NodeVisitor):
                 v = self.expr_as(call.args[0], elem_of(lt))
                 body = self.block(rest, [])
                 return f"let {lname(nm)} : {lt} := ({lname(nm)} ++ [{v}])\n{body}"
+            if isinstance(s, ast.Expr) and call.func.attr == "appendleft" and len(call.args) == 1:      # (C14) deque.appendleft
+                v = self.expr_as(call.args[0], elem_of(lt))
+                body = self.block(rest, [])
+                return f"let {lname(nm)} : {lt} := ({v} :: {lname(nm)})\n{body}"
             if call.func.attr == "pop" and len(call.args) == 0:
                 lines = []
                 saved = dict(self.env)
@@ -1443,12 +1836,12 @@ class _Tr(ast.NodeVisitor):
                 self.env = saved
                 return "\n".join(lines) + "\n" + body
         if isinstance(s, ast.Assign) and len(s.targets) == 1 and isinstance(s.targets[0], ast.Name) \
-                and s.targets[0].id in (o.get("local_types") or {}):
+                and (s.targets[0].id in (o.get("local_types") or {}) or o.get("empty_type")):
             v = s.value
             empty = (isinstance(v, ast.Call) and _dotted(v.func) in ("deque", "collections.deque", "list") and not v.args
                      and not v.keywords) or (isinstance(v, ast.List) and not v.elts)
             if empty:
-                lt = o["local_types"][s.targets[0].id]
+                lt = (o.get("local_types") or {}).get(s.targets[0].id) or o["empty_type"]
                 saved = dict(self.env)
                 self.env[s.targets[0].id] = lt
                 body = self.block(rest, [])
@@ -1464,6 +1857,27 @@ class _Tr(ast.NodeVisitor):
             self.bad(s, "while loop (no `loop_fuel` / `err` declared in the spec)")
         if s.orelse:
             self.bad(s, "while ... else")
+        if self.fn.opts.get("lists") and isinstance(s.test, ast.Compare) and isinstance(s.test.left, ast.NamedExpr) \
+                and isinstance(s.test.left.target, ast.Name) and sum(isinstance(n, ast.NamedExpr) for n in ast.walk(s.test)) == 1 \
+                and not any(isinstance(n, ast.Continue) for n in ast.walk(s)):
+            # (C14) `while (v := e) <op> c: BODY`  ==  `v = e; while v <op> c: BODY; v = e` (the walrus is evaluated first, before
+            # every test)
+            w = s.test.left
+            assign = ast.copy_location(ast.Assign(targets=[ast.copy_location(ast.Name(id=w.target.id, ctx=ast.Store()), w)],
+                                                  value=w.value), s)
+            test = ast.copy_location(ast.Compare(left=ast.copy_location(ast.Name(id=w.target.id, ctx=ast.Load()), w),
+                                                 ops=s.test.ops, comparators=s.test.comparators), s.test)
+            loop = ast.copy_location(ast.While(test=test, body=list(s.body) + [assign], orelse=[]), s)
+            return self.block([assign, loop] + list(rest), [])
+        # `while True: BODY; if C: break`  ==  `st = BODY(st); while not C: st = BODY(st)`  (a do-while loop)
+        do_while = None
+        if isinstance(s.test, ast.Constant) and s.test.value is True and s.body and isinstance(s.body[-1], ast.If) \
+                and not s.body[-1].orelse and len(s.body[-1].body) == 1 and isinstance(s.body[-1].body[0], ast.Break):
+            do_while = s.body[-1].test
+            s = ast.copy_location(ast.While(test=ast.UnaryOp(op=ast.Not(), operand=do_while), body=s.body[:-1], orelse=[]), s)
+            ast.fix_missing_locations(s)
+            if not s.body:
+                self.bad(s, "empty do-while body")
         for n in ast.walk(s):
             if isinstance(n, (ast.Return, ast.Break, ast.Continue, ast.Raise)) or (isinstance(n, ast.While) and n is not s):
                 self.bad(n, f"{type(n).__name__} inside a while loop")
@@ -1478,7 +1892,9 @@ class _Tr(ast.NodeVisitor):
                         assigned.append(x.id)
         assigned += [n for n in self.pylite3_mutated(s) if n not in assigned]
         state = [n for n in assigned if n in self.env]
-        if self.fn.opts.get("sorted_state", True):
+        if self.fn.opts.get("sorted_state", True) == "definition":
+            state = [n for n in self.env if n in state]
+        elif self.fn.opts.get("sorted_state", True):
             state.sort()
         if not state:
             self.bad(s, "while loop that assigns no outer variable")
@@ -1515,9 +1931,15 @@ class _Tr(ast.NodeVisitor):
         init = ", ".join(self.coerce(lname(n), self.env[n], t_) for n, t_ in zip(state, types))
         init = f"({init})" if len(state) > 1 else init
         res = self.fresh("loop")
-        out = [f"(match Rpylib.Py.whileLoop (fun ({st} : {sty}) =>\n{textwrap.indent(cond, '    ')}) (fun ({st} : {sty}) =>\n"
-               f"{textwrap.indent(body, '    ')}) ({fuel}) {init} with",
-               f"| none => {self.fn.err}", f"| some {res} =>"]
+        if do_while is not None:
+            bname = self.fresh("loopbody")
+            out = [f"let {bname} : {sty} → {sty} := (fun ({st} : {sty}) =>\n{textwrap.indent(body, '    ')})",
+                   f"(match Rpylib.Py.whileLoop (fun ({st} : {sty}) =>\n{textwrap.indent(cond, '    ')}) {bname} ({fuel}) ({bname} {init}) with",
+                   f"| none => {self.fn.err}", f"| some {res} =>"]
+        else:
+            out = [f"(match Rpylib.Py.whileLoop (fun ({st} : {sty}) =>\n{textwrap.indent(cond, '    ')}) (fun ({st} : {sty}) =>\n"
+                   f"{textwrap.indent(body, '    ')}) ({fuel}) {init} with",
+                   f"| none => {self.fn.err}", f"| some {res} =>"]
         saved = dict(self.env)
         tail_lines = []
         for i, (n, t_) in enumerate(zip(state, types)):
@@ -1530,7 +1952,8 @@ class _Tr(ast.NodeVisitor):
     # ---- numpy vectors: ceil / floor, copy, astype, masked store ------------------------------------------------------
     _ND_FRESH = ("np.ceil", "numpy.ceil", "np.floor", "numpy.floor", "np.zeros", "numpy.zeros", "np.array", "numpy.array",
                  "np.cumsum", "numpy.cumsum", "np.insert", "numpy.insert", "np.append", "numpy.append", "np.zeros_like",
-                 "numpy.zeros_like", "np.diff", "numpy.diff", "np.concatenate", "numpy.concatenate", "list")
+                 "numpy.zeros_like", "np.diff", "numpy.diff", "np.concatenate", "numpy.concatenate", "list", "np.empty_like",
+                 "numpy.empty_like", "np.diag", "numpy.diag")
     _ND_PURE = ("np.sum", "numpy.sum", "sum", "len", "np.prod", "numpy.prod", "math.prod", "max", "min", "np.max", "np.min",
                 "zip", "enumerate", "tuple", "math.fsum")
 
@@ -1562,13 +1985,17 @@ class _Tr(ast.NodeVisitor):
             return any(self.nd_exposes(x, name) for x in list(v.args) + [k.value for k in v.keywords])
         return False
 
-    def nd_require_owned(self, at, name):
+    def nd_require_owned(self, at, name, horizon=None):
         """the in-place store at `at` into the array `name` is a rebinding of `name` only if no other name can see the array:
         every assignment of `name` in the function binds a newly built array, and `name` is never bound to another name, put
-        into a container, sliced (a view) or handed to an unknown callable (flow-insensitive, conservative)"""
+        into a container, sliced (a view) or handed to an unknown callable (flow-insensitive, conservative).
+        `horizon` (C07): a line number; statements that start after it are not looked at — for a caller that knows that they
+        run after the last execution of the store (they follow the outermost loop around it)"""
         if any(p.arg == name for p in self.node.args.args):
             self.bad(at, f"in-place store into the parameter `{name}` (the caller's array)")
         for n in ast.walk(self.node):
+            if horizon is not None and getattr(n, "lineno", 0) > horizon:
+                continue
             if isinstance(n, (ast.Assign, ast.AnnAssign)) and n.value is not None:
                 tgs = n.targets if isinstance(n, ast.Assign) else [n.target]
                 for t_ in tgs:
@@ -1652,6 +2079,391 @@ class _Tr(ast.NodeVisitor):
         body = self.block(rest, [])
         return (f"let {lname(name)} : {lt} := (List.map (fun ({tmp} : {et}) => if {c} then {val} else {tmp}) {lname(name)})\n"
                 f"{body}")
+
+    # ---- (C17) paths: multi-axis subscripts, masks -> indices, reductions, element-wise maximum --------------------------
+    def path_index(self, e):
+        """numpy subscripts with several axes of a list (1-d array) or a list of lists (2-d array): `x[..., i]`, `x[..., a:b]`,
+        `x[i, ...]`, `x[i, j]` (an Ellipsis stands for the axes that are not named; an axis that is not indexed is mapped over:
+        `x[..., -1]` of a 2-d array is the list of the last entries of its rows).  None when `e.slice` is not a tuple."""
+        if not isinstance(e.slice, ast.Tuple):
+            return None
+        vs, vt = self.expr(e.value)
+        depth, t_ = 0, vt
+        while is_list(t_):
+            depth, t_ = depth + 1, elem_of(t_)
+        items = list(e.slice.elts)
+        ell = [i for i, x in enumerate(items) if isinstance(x, ast.Constant) and x.value is Ellipsis]
+        if depth == 0 or len(ell) > 1 or len(items) - len(ell) > depth:
+            self.bad(e, f"subscript with {len(items)} axes of a value of type {vt}")
+        if ell:
+            items = items[:ell[0]] + [None] * (depth - (len(items) - 1)) + items[ell[0] + 1:]
+
+        def apply(term, ty, its):
+            if not its or all(x is None for x in its):
+                return term, ty
+            x, rest = its[0], its[1:]
+            if x is None or isinstance(x, ast.Slice):
+                if isinstance(x, ast.Slice):
+                    if x.step is not None or (x.lower is not None and x.upper is not None):
+                        self.bad(e, "slice with a step or with both bounds")
+                    if x.upper is not None:
+                        term = f"(Rpylib.Py.sliceTo {term} {self.expr_as(x.upper, INT)})"
+                    if x.lower is not None:
+                        term = f"(Rpylib.Py.sliceFrom {term} {self.expr_as(x.lower, INT)})"
+                if not rest or all(y is None for y in rest):
+                    return term, ty
+                r_ = self.fresh("r")
+                inner, it_ = apply(r_, elem_of(ty), rest)
+                return f"(List.map (fun ({r_} : {elem_of(ty)}) => {inner}) {term})", list_of(it_)
+            return apply(f"(Rpylib.Py.idx {term} {self.expr_as(x, INT)})", elem_of(ty), rest)
+        return apply(vs, vt, items)
+
+    def path_call(self, e, fdot, a, kw):
+        """`np.argwhere(xs <op> c)` of a 1-d array: the positions where the comparison holds, in increasing order (numpy returns
+        them as an (n, 1) array: read as the list of its n entries — `.size`, `len`, `np.min` / `np.max` agree);
+        `np.min / np.max / np.amin / np.amax (xs)` of a list of numbers (numpy raises on an empty array, here the value is 0:
+        the caller's domain); `np.maximum / np.minimum` of a scalar and a 1-d array (element-wise); `any / all` of a
+        comprehension of conditions.  None when `e` is none of them."""
+        if kw or not fdot:
+            return None
+        if fdot in ("np.argwhere", "numpy.argwhere", "np.flatnonzero", "numpy.flatnonzero") and len(a) == 1 \
+                and isinstance(a[0], ast.Compare) and len(a[0].ops) == 1:
+            ls, lt = self.expr(a[0].left)
+            if not (is_list(lt) and elem_of(lt) in (INT, RAT)):
+                return None
+            tmp, q = self.fresh("m"), self.fresh("q")
+            saved = dict(self.env)
+            self.env[tmp] = elem_of(lt)
+            cmp_ = ast.copy_location(ast.Compare(left=ast.copy_location(ast.Name(id=tmp, ctx=ast.Load()), a[0]),
+                                                 ops=a[0].ops, comparators=a[0].comparators), a[0])
+            c = self.prop(cmp_)
+            self.env = saved
+            return (f"(List.map Prod.fst (List.filter (fun ({q} : Int × {elem_of(lt)}) => let {tmp} : {elem_of(lt)} := {q}.2; "
+                    f"decide {c}) (Rpylib.Py.enumerate {ls})))"), "List Int"
+        if fdot in ("np.min", "np.max", "np.amin", "np.amax", "numpy.min", "numpy.max", "numpy.amin", "numpy.amax") and len(a) == 1:
+            s_, t_ = self.expr(a[0])
+            if not (is_list(t_) and elem_of(t_) in (INT, RAT)):
+                return None
+            fnm = {(RAT, True): "Rpylib.Py.rmax", (RAT, False): "Rpylib.Py.rmin", (INT, True): "Rpylib.Py.imax",
+                   (INT, False): "Rpylib.Py.imin"}[(elem_of(t_), fdot.endswith("max"))]
+            tmp = self.fresh("l")
+            return f"(let {tmp} : {t_} := {s_}; List.foldl {fnm} (List.headD {tmp} 0) (List.tail {tmp}))", elem_of(t_)
+        if fdot in ("np.maximum", "np.minimum", "numpy.maximum", "numpy.minimum") and len(a) == 2:
+            (x, tx), (y, ty) = self.expr(a[0]), self.expr(a[1])
+            if is_list(tx) == is_list(ty):
+                return None
+            fnm = "Rpylib.Py.rmax" if fdot.endswith("maximum") else "Rpylib.Py.rmin"
+            (vs, vt), (ss, st) = ((x, tx), (y, ty)) if is_list(tx) else ((y, ty), (x, tx))
+            if elem_of(vt) not in (INT, RAT) or st not in (INT, RAT, NUM):
+                return None
+            sc = f"({ss} : Rat)" if st == NUM else self.coerce(ss, st, RAT)
+            body = f"{fnm} x_ {sc}" if is_list(tx) else f"{fnm} {sc} x_"
+            return f"(List.map (fun (x_ : Rat) => {body}) {self.coerce(vs, vt, 'List Rat')})", "List Rat"
+        if fdot in ("any", "all") and len(a) == 1 and isinstance(a[0], (ast.GeneratorExp, ast.ListComp)):
+            s_, t_ = self.comprehension(a[0])
+            if elem_of(t_) != BOOL:
+                self.bad(e, f"{fdot} of a list of {elem_of(t_)}")
+            return f"(List.{fdot} {s_} (fun (b_ : Bool) => b_))", BOOL
+        return None
+
+    # ---- PyLite nd2 (C07): 2-d numpy arrays as lists of rows — axis-0 reductions, covariance, products, try / except ------
+    _MAT, _VEC, _TEN = "List (List Rat)", "List Rat", "List (List (List Rat))"
+
+    def nd2_slice(self, s, sl):
+        """`xs[a:b]` / `xs[:b]` / `xs[a:]` / `xs[:]`; with both bounds the lower one must be a literal >= 0 (then
+        xs[a:b] == xs[:b][a:]); `xs[0:b]` is `xs[:b]`"""
+        if sl.step is not None:
+            self.bad(sl, "slice with a step")
+        out = s
+        lit = isinstance(sl.lower, ast.Constant) and type(sl.lower.value) is int and sl.lower.value >= 0
+        if sl.upper is not None:
+            if sl.lower is not None and not lit:
+                self.bad(sl, "slice with both bounds whose lower bound is not a literal >= 0")
+            out = f"(Rpylib.Py.sliceTo {out} {self.expr_as(sl.upper, INT)})"
+        if sl.lower is not None and not (lit and sl.lower.value == 0):
+            out = f"(Rpylib.Py.sliceFrom {out} {self.expr_as(sl.lower, INT)})"
+        return out
+
+    def nd2_expr(self, e):
+        """(only for functions that declare `opts["nd2"]`) a 2-d numpy array is the list of its rows (`List (List Rat)`; the
+        theorems state rectangularity as a hypothesis), a 3-d one a list of those.  `m.T` (1-d: the array itself; 2-d:
+        `Rpylib.Py.transpose`; 3-d: all axes reversed), `m.size` (number of entries), `m[r, c]` with slices / indices,
+        `np.mean / np.var / np.std (.., axis=0, ddof=k)` (`np.std` is `np.sqrt` of the variance: `np.sqrt` must be a declared
+        `fn_params`), `np.cov(a, b, bias=.., ddof=..)` (variables in rows; numpy's rule for the divisor), `np.dot`,
+        `np.amin / np.amax / np.min / np.max` of a whole array, `np.absolute`, `np.empty_like` of a 2-d array
+        (content: the opaque `Rpylib.Py.uninit2`).  None when `e` is none of these."""
+        M, V, T3 = self._MAT, self._VEC, self._TEN
+        if isinstance(e, ast.Attribute) and e.attr in ("T", "size"):
+            if isinstance(e.value, ast.Name) and e.value.id not in self.env:
+                return None
+            s, t = self.expr(e.value)
+            if e.attr == "T":
+                if t == V:
+                    return s, V                                      # the transpose of a 1-d array is the array itself
+                if t == M:
+                    return f"(Rpylib.Py.transpose {s})", M
+                if t == T3:                                          # (n, k, d) -> (d, k, n)
+                    tr = "(fun (nd_m : List (List Rat)) => Rpylib.Py.transpose nd_m)"
+                    return f"(List.map {tr} (Rpylib.Py.transpose (List.map {tr} {s})))", T3
+                self.bad(e, f".T of a {t}")
+            if t == M:
+                return f"(Rpylib.Py.size2 {s})", INT
+            return None
+        if isinstance(e, ast.Subscript) and isinstance(e.slice, ast.Tuple) and len(e.slice.elts) == 2 \
+                and not (isinstance(e.value, ast.Name) and e.value.id not in self.env):
+            s, t = self.expr(e.value)
+            if t != M:
+                return None
+            r, c = e.slice.elts
+            if isinstance(r, ast.Slice):
+                rows = self.nd2_slice(s, r)
+                if isinstance(c, ast.Slice):
+                    return f"(List.map (fun (nd_r : List Rat) => {self.nd2_slice('nd_r', c)}) {rows})", M
+                return f"(List.map (fun (nd_r : List Rat) => Rpylib.Py.idx nd_r {self.expr_as(c, INT)}) {rows})", V
+            row = f"(Rpylib.Py.idx {s} {self.expr_as(r, INT)})"
+            if isinstance(c, ast.Slice):
+                return self.nd2_slice(row, c), V
+            return f"(Rpylib.Py.idx {row} {self.expr_as(c, INT)})", RAT
+        if isinstance(e, ast.Call):
+            fdot = (_dotted(e.func) or "").replace("numpy.", "np.")
+            a, kw = e.args, {k.arg: k.value for k in e.keywords}
+            if None in kw or any(isinstance(x, ast.Starred) for x in a):
+                return None
+
+            def axis0(flat_ok=True):
+                """True: reduce along axis 0; False: over the whole array"""
+                ax = kw.get("axis")
+                if ax is None or (isinstance(ax, ast.Constant) and ax.value is None):
+                    return False
+                if isinstance(ax, ast.Constant) and type(ax.value) is int and ax.value == 0:
+                    return True
+                self.bad(e, f"{fdot} along an axis other than 0")
+            if fdot in ("np.mean", "np.var", "np.std") and len(a) == 1 and set(kw) <= ({"axis"} if fdot == "np.mean" else {"axis", "ddof"}):
+                s, t = self.expr(a[0])
+                if t not in (V, M):
+                    self.bad(e, f"{fdot} of a {t}")
+                ax0 = axis0()
+                ddof = self.expr_as(kw["ddof"], INT) if "ddof" in kw else "0"
+                if fdot == "np.std":
+                    nm = self.fn.fn_params.get("np.sqrt")
+                    if nm is None:
+                        self.bad(e, "np.std needs `np.sqrt` declared in fn_params (the standard deviation is np.sqrt of the variance)")
+                    self.add_param(nm, "Rat → Rat")
+                if t == M and ax0:
+                    if fdot == "np.mean":
+                        return f"(Rpylib.Py.meanAxis0 {s})", V
+                    v = f"(Rpylib.Py.varAxis0 {s} {ddof})"
+                    return (v, V) if fdot == "np.var" else (f"(List.map {nm} {v})", V)
+                flat = s if t == V else f"(List.flatten {s})"
+                if fdot == "np.mean":
+                    return f"(Rpylib.Py.mean {flat})", RAT
+                v = f"(Rpylib.Py.var {flat} {ddof})"
+                return (v, RAT) if fdot == "np.var" else (f"({nm} {v})", RAT)
+            if fdot == "np.cov" and 1 <= len(a) <= 2 and set(kw) <= {"y", "bias", "ddof"} and not (len(a) == 2 and "y" in kw):
+                parts = [self.expr(x) for x in list(a) + ([kw["y"]] if "y" in kw else [])]
+                if any(t not in (V, M) for _, t in parts) or (len(parts) == 1 and parts[0][1] == V):
+                    self.bad(e, "np.cov of these arguments")
+                rows = " ++ ".join(s if t == M else f"[{s}]" for s, t in parts)
+                bias = kw.get("bias")
+                if bias is not None and not (isinstance(bias, ast.Constant) and isinstance(bias.value, bool)):
+                    self.bad(e, "np.cov with a bias that is not a literal")
+                dd = kw.get("ddof")
+                if dd is None or (isinstance(dd, ast.Constant) and dd.value is None):
+                    ddof = "0" if (bias is not None and bias.value) else "1"       # numpy: ddof = 0 if bias else 1
+                else:
+                    ddof = self.expr_as(dd, INT)
+                return f"(Rpylib.Py.covMatrix ({rows}) {ddof})", M
+            if fdot == "np.dot" and len(a) == 2 and not kw:
+                (x, tx), (y, ty) = self.expr(a[0]), self.expr(a[1])
+                fn_ = {(V, V): ("Rpylib.Py.dot", RAT), (M, V): ("Rpylib.Py.matVec", V), (V, M): ("Rpylib.Py.vecMat", V)}.get((tx, ty))
+                if fn_ is None:
+                    self.bad(e, f"np.dot of a {tx} and a {ty}")
+                return f"({fn_[0]} {x} {y})", fn_[1]
+            if fdot in ("np.amin", "np.amax", "np.min", "np.max") and len(a) == 1 and not kw:
+                s, t = self.expr(a[0])
+                if t not in (V, M):
+                    return None
+                fn_ = "Rpylib.Py.rminList" if fdot.endswith("min") else "Rpylib.Py.rmaxList"
+                return f"({fn_} {s if t == V else '(List.flatten ' + s + ')'})", RAT
+            if fdot in ("np.absolute", "np.abs", "np.fabs") and len(a) == 1 and not kw:
+                s, t = self.expr(a[0])
+                if t == V:
+                    return f"(List.map Rpylib.Py.rabs {s})", V
+                if t == M:
+                    return f"(List.map (fun (nd_r : List Rat) => List.map Rpylib.Py.rabs nd_r) {s})", M
+                if t == RAT:
+                    return f"(Rpylib.Py.rabs {s})", RAT
+                return None
+            if fdot == "np.empty_like" and len(a) == 1 and not kw:
+                s, t = self.expr(a[0])
+                if t != M:
+                    return None
+                site = self.sites.setdefault(("np.empty", id(e)), len([k for k in self.sites if k[0] == "np.empty"]))
+                return f"(Rpylib.Py.emptyLike2 {site} {s})", M
+        return None
+
+    def nd2_binop(self, e, a, ta, b, tb):
+        """`m @ v`, `v @ m`, `v @ w`; broadcasting of a 2-d array with a 1-d array along the last axis (`m - v`: every row
+        minus `v`) and with a scalar.  None for other operand types."""
+        M, V = self._MAT, self._VEC
+        if isinstance(e.op, ast.MatMult):
+            fn_ = {(V, V): ("Rpylib.Py.dot", RAT), (M, V): ("Rpylib.Py.matVec", V), (V, M): ("Rpylib.Py.vecMat", V)}.get((ta, tb))
+            if fn_ is None:
+                self.bad(e, f"`@` of a {ta} and a {tb}")
+            return f"({fn_[0]} {a} {b})", fn_[1]
+        sym = {ast.Add: "+", ast.Sub: "-", ast.Mult: "*", ast.Div: "/"}.get(type(e.op))
+        if sym is None or M not in (ta, tb):
+            return None
+        if (ta, tb) == (M, V):
+            return f"(List.map (fun (nd_r : List Rat) => List.zipWith (fun (x_ y_ : Rat) => x_ {sym} y_) nd_r {b}) {a})", M
+        if (ta, tb) == (V, M):
+            return f"(List.map (fun (nd_r : List Rat) => List.zipWith (fun (x_ y_ : Rat) => x_ {sym} y_) {a} nd_r) {b})", M
+        if ta == M and tb in (RAT, INT, NUM):
+            c = f"({b} : Rat)" if tb == NUM else self.coerce(b, tb, RAT)
+            return f"(List.map (fun (nd_r : List Rat) => List.map (fun (x_ : Rat) => x_ {sym} {c}) nd_r) {a})", M
+        if tb == M and ta in (RAT, INT, NUM) and sym != "/":
+            c = f"({a} : Rat)" if ta == NUM else self.coerce(a, ta, RAT)
+            return f"(List.map (fun (nd_r : List Rat) => List.map (fun (x_ : Rat) => {c} {sym} x_) nd_r) {b})", M
+        self.bad(e, f"`{sym}` of a {ta} and a {tb}")
+
+    def nd2_stmt(self, s, rest):
+        """`try: B  except E: H` with `opts["try_raises"] = {"<E>": name}`: the Bool parameter `name` says "B raises E"; the
+        definition is `if name then H; rest else B; rest` — faithful when everything B assigns and the rest reads is assigned
+        again by H (checked), so that nothing of an interrupted B can be seen.  `logging.<f>(..)` as a statement is skipped (no
+        value depends on it).  `m[:, k] = v` on a 2-d array this function built itself (`Rpylib.Py.setCol`).
+        None when `s` is none of these."""
+        if isinstance(s, ast.Expr) and isinstance(s.value, ast.Call) and (_dotted(s.value.func) or "").startswith("logging."):
+            return self.block(rest, [])
+        if isinstance(s, ast.Try):
+            tr = self.fn.opts.get("try_raises") or {}
+            if s.orelse or s.finalbody or len(s.handlers) != 1:
+                self.bad(s, "try statement with else / finally / several handlers")
+            h = s.handlers[0]
+            key = _norm_expr(h.type) if h.type is not None else ""
+            if key not in tr or h.name is not None:
+                self.bad(s, f"try / except {key or '<bare>'} (not declared in opts['try_raises'])")
+
+            def assigned(stmts, top_only):
+                """names bound under `stmts`; top_only: only by the plain assignments `x = e` that are statements of `stmts` itself"""
+                out = set()
+                for st in stmts:
+                    for n in ([st] if top_only else ast.walk(st)):
+                        tg = n.targets if isinstance(n, ast.Assign) else [n.target] \
+                            if isinstance(n, (ast.AugAssign, ast.AnnAssign, ast.For, ast.comprehension)) else []
+                        if top_only and not (isinstance(n, ast.Assign) and all(isinstance(t_, ast.Name) for t_ in tg)):
+                            tg = []
+                        for t_ in tg:
+                            out |= {x.id for x in ast.walk(t_) if isinstance(x, ast.Name)}
+                return out
+            read_later = {x.id for st in rest for x in ast.walk(st) if isinstance(x, ast.Name) and isinstance(x.ctx, ast.Load)}
+            leak = (assigned(s.body, False) & read_later) - assigned(h.body, True)
+            if leak:
+                self.bad(s, f"the try body assigns {sorted(leak)}, read afterwards and not re-assigned by the handler")
+            nm = tr[key]
+            self.add_param(nm, BOOL)
+            saved, saved_flags = dict(self.env), dict(self.none_flag)
+            ha = self.block(h.body, rest)
+            self.env, self.none_flag = dict(saved), dict(saved_flags)
+            bo = self.block(s.body, rest)
+            self.env, self.none_flag = saved, saved_flags
+            return f"if ({nm} = true) then\n{textwrap.indent(ha, '  ')}\nelse\n{textwrap.indent(bo, '  ')}"
+        if isinstance(s, ast.Assign) and len(s.targets) == 1 and isinstance(s.targets[0], ast.Subscript) \
+                and isinstance(s.targets[0].value, ast.Name) and self.env.get(s.targets[0].value.id) == self._MAT \
+                and isinstance(s.targets[0].slice, ast.Tuple) and len(s.targets[0].slice.elts) == 2:
+            tg = s.targets[0]
+            r, c = tg.slice.elts
+            if not (isinstance(r, ast.Slice) and r.lower is None and r.upper is None and r.step is None) or isinstance(c, ast.Slice):
+                self.bad(s, "store into a 2-d array other than `m[:, k] = v`")
+            name = tg.value.id
+            # statements after the outermost loop around this store (or after the store itself) run when no store follows: an
+            # alias made there (`obj.stats = res`) cannot see an intermediate state
+            loops = [n for n in ast.walk(self.node) if isinstance(n, (ast.For, ast.While)) and n.lineno <= s.lineno <= n.end_lineno]
+            horizon = max([n.end_lineno for n in loops] + [s.end_lineno])
+            if any(isinstance(n, (ast.FunctionDef, ast.Lambda)) and n is not self.node for n in ast.walk(self.node)):
+                self.bad(s, "store into a 2-d array in a function with nested functions")
+            self.nd_require_owned(s, name, horizon=horizon)
+            v = self.expr_as(s.value, self._VEC)
+            new = f"(Rpylib.Py.setCol {lname(name)} {self.expr_as(c, INT)} {v})"
+            body = self.block(rest, [])
+            return f"let {lname(name)} : {self._MAT} := {new}\n{body}"
+        return None
+
+    # ---- PyLite 6 (C19): star arguments of tuple type, methods of the elements of a list of objects, 2-d stores ------------
+    def star_args(self, e):
+        """`f(.., *t, ..)` with `t` of a tuple type: the call with the components of `t` in its place.  Returns the rewritten
+        call node and the `let` prefix that binds the tuple once (empty when there is no star argument)."""
+        if not any(isinstance(x, ast.Starred) for x in e.args):
+            return e, ""
+        args, lets = [], ""
+        for x in e.args:
+            if not isinstance(x, ast.Starred):
+                args.append(x)
+                continue
+            s, t = self.expr(x.value)
+            if not t or is_list(t) or t.startswith("fn:") or "×" not in t:
+                self.bad(e, f"star argument of type {t} (only a tuple is translated)")
+            n = len(split_top(_strip_parens(t), "×"))
+            nm = self.fresh("star")
+            self.env[nm] = t
+            lets += f"let {nm} : {t} := {s}; "
+            for i in range(n):
+                args.append(ast.copy_location(ast.Subscript(value=ast.Name(id=nm, ctx=ast.Load()), slice=ast.Constant(value=i),
+                                                            ctx=ast.Load()), x))
+        new = ast.copy_location(ast.Call(func=e.func, args=args, keywords=e.keywords), e)
+        return ast.fix_missing_locations(new), lets
+
+    def pylite6_call(self, e, fdot):
+        """a declared opaque callable called with a star argument of tuple type (`self.model.mass(*interval_I(a))`), and a
+        method call on an element of a declared list of objects (`opts["obj_lists"] = {"self.m.models": "n_models"}`,
+        `opaque_fns["self.m.models[].mass"] = (name, [Int, ..], ret)`: the first argument is the element's position);
+        None when `e` is neither"""
+        f = e.func
+        recv = None
+        if isinstance(f, ast.Attribute) and isinstance(f.value, ast.Name) and f.value.id in self.obj_elem:
+            key, recv = self.obj_elem[f.value.id] + "[]." + f.attr, lname(f.value.id)
+            if key not in self.fn.opaque_fns:
+                self.bad(e, f"the method {f.attr} of the elements of {self.obj_elem[f.value.id]} is not declared in the spec")
+        elif fdot and fdot in self.fn.opaque_fns and any(isinstance(x, ast.Starred) for x in e.args):
+            key = fdot
+        else:
+            return None
+        if e.keywords:
+            self.bad(e, "keyword arguments")
+        e2, lets = self.star_args(e)
+        nm, atys, rty = self.fn.opaque_fns[key]
+        real = list(atys)[1:] if recv is not None else list(atys)
+        if len(e2.args) != len(real):
+            self.bad(e, f"call of {key} with {len(e2.args)} arguments")
+        self.add_param(nm, " → ".join(list(atys) + [rty]))
+        parts = ([recv] if recv is not None else []) + [self.expr_as(a_, want) for a_, want in zip(e2.args, real)]
+        inner = "(" + " ".join([nm] + parts) + ")"
+        return (f"({lets}{inner})" if lets else inner), rty
+
+    def pylite6_stmt(self, s, rest):
+        """`m[i, j] = v` on a 2-d float array (a list of rows) that this function built itself and that no other name can see
+        (`m = np.diag(..)`; `nd_require_owned`): the in-place store is a rebinding of `m`.  Python raises IndexError for a
+        position outside the array where `setAt` leaves it unchanged: the caller's domain.  None when `s` is not one."""
+        if not (isinstance(s, ast.Assign) and len(s.targets) == 1 and isinstance(s.targets[0], ast.Subscript)):
+            return None
+        tg = s.targets[0]
+        if not (isinstance(tg.value, ast.Name) and isinstance(tg.slice, ast.Tuple) and len(tg.slice.elts) == 2
+                and self.env.get(tg.value.id) == "List (List Rat)"):
+            return None
+        name = lname(tg.value.id)
+        self.nd_require_owned(s, tg.value.id)
+        ix = []
+        for x in tg.slice.elts:
+            i_, it_ = self.expr(x)
+            if it_ not in (INT, NUM):
+                self.bad(s, f"store at an index of type {it_}")
+            ix.append(i_ if it_ == INT else f"({i_} : Int)")
+        v, vt = self.expr(s.value)
+        if vt not in (INT, RAT, NUM):
+            self.bad(s, f"store of a {vt} into a 2-d float array")
+        val = f"({v} : Rat)" if vt == NUM else self.coerce(v, vt, RAT)
+        body = self.block(rest, [])
+        return (f"let {name} : List (List Rat) := (Rpylib.Py.setAt {name} {ix[0]} (Rpylib.Py.setAt (Rpylib.Py.idx {name} {ix[0]}) "
+                f"{ix[1]} {val}))\n{body}")
 
     def ret_coerce(self, node, v, t):
         want = self.fn.ret
@@ -1802,10 +2614,11 @@ def _signature(unit: Unit, fn: Fn):
         # a view of a sub-block: its inputs are the declared parameters, its value is `result`
         stmts = _select_block(unit, fn, node)
         lines = (stmts[0].lineno, stmts[-1].end_lineno)
-        if not fn.result or fn.ret is None:
+        if not (fn.result or fn.ctor or fn.stores) or (fn.ret is None and not fn.stores):   # (C14) `stores` alone: their final values
             raise Untranslatable(f"{unit.path}:{node.lineno}: {fn.qualname}: a block view needs `result` and `ret`")
-        stmts = list(stmts) + [ast.copy_location(ast.Return(value=ast.parse(fn.result, mode="eval").body), stmts[-1])]
-        ast.fix_missing_locations(stmts[-1])
+        if fn.result:       # (C10) a view that ends with the constructor call `super().__init__(kw=..)` (`ctor`) has its value already
+            stmts = list(stmts) + [ast.copy_location(ast.Return(value=ast.parse(fn.result, mode="eval").body), stmts[-1])]
+            ast.fix_missing_locations(stmts[-1])
         params = [(n_, t_) for n_, t_ in fn.params.items()]
     for p in ([] if fn.block else a.args):
         if p.arg in ("self", "cls"):
